@@ -197,19 +197,6 @@ Loose(b) ==
   IF ~Accepts(b) THEN << >>
   ELSE IF DFof(b) \in {17, 18} THEN MELoose(b, 32) ELSE << >>
 
-\* --- comparison ------------------------------------------------------------------------------
-Diff(out, b) ==
-  LET e == Expect(b)  l == Loose(b)  full == CsFull(b) IN
-  IF e.ok = 0 \/ ("ok" \in DOMAIN out /\ out.ok = 0)
-  THEN IF "ok" \in DOMAIN out /\ out.ok = e.ok THEN {} ELSE
-       \* a frame that carries an interpreted payload and is refused had no payload variant selected for it: that is the
-       \* dispatch table's (C10) as much as acceptance's (C02)
-       {"ok"} \cup (IF e.ok = 1 /\ DFof(b) \in {17, 18, 20, 21} THEN {"variant_rejected"} ELSE {})
-  ELSE    {k \in DOMAIN e : k \notin DOMAIN out \/ out[k] # e[k]}
-     \cup {k \in DOMAIN l : k \notin DOMAIN out \/ out[k] \notin l[k]}
-     \cup (IF full = <<>> THEN {}
-           ELSE IF "cs" \in DOMAIN out /\ CallsignOK(out.cs, full) THEN {} ELSE {"cs"})
-
 \* each abstract field belongs to exactly one listed property
 Owner(f) ==
   CASE f = "ok" -> "C02"
@@ -223,6 +210,23 @@ Owner(f) ==
     [] f = "variant_rejected" -> "C10"
     [] f \in {"raw", "rsv5", "vraw22", "vrk", "bdsid"} -> "I"          \* opaque bytes: no listed property; reported as drift of the model
     [] OTHER -> "C10"
+
+\* --- comparison ------------------------------------------------------------------------------
+Diff(out, b) ==
+  LET e == Expect(b)  l == Loose(b)  full == CsFull(b) IN
+  IF e.ok = 0 \/ ("ok" \in DOMAIN out /\ out.ok = 0)
+  THEN IF "ok" \in DOMAIN out /\ out.ok = e.ok THEN {} ELSE
+       \* a frame that carries an interpreted payload and is refused had no payload variant selected for it: that is the
+       \* dispatch table's (C10) as much as acceptance's (C02)
+       {"ok"} \cup (IF e.ok = 1 /\ DFof(b) \in {17, 18, 20, 21} THEN {"variant_rejected"} ELSE {})
+       \* ... and the codes it carries did not decode to anything: altitude (C06), velocity (C07), identification (C08),
+       \* identity (C09) - the properties that speak of "every code", not of "every accepted frame"
+       \cup (IF e.ok = 1 THEN {k \in DOMAIN e \cup DOMAIN l : Owner(k) \in {"C06", "C07", "C08", "C09"}} \cup (IF full = <<>> THEN {} ELSE {"cs"})
+             ELSE {})
+  ELSE    {k \in DOMAIN e : k \notin DOMAIN out \/ out[k] # e[k]}
+     \cup {k \in DOMAIN l : k \notin DOMAIN out \/ out[k] \notin l[k]}
+     \cup (IF full = <<>> THEN {}
+           ELSE IF "cs" \in DOMAIN out /\ CallsignOK(out.cs, full) THEN {} ELSE {"cs"})
 
 \* coarse signature of an input, used for known findings and coverage counters
 DFTag(b) == IF Len(b) = 0 THEN "df=none" ELSE "df=" \o ToString(DFof(b))
